@@ -297,6 +297,10 @@ impl Prop for C07 {
         ]
     }
 
+    fn fuzz_targets(&self) -> Vec<(&'static str, u64)> {
+        vec![("fuzz_sorter", 40_000)]
+    }
+
     fn run(&self, case: &Case, obs: &mut Obs) -> Check {
         let inserts = prepared(case.kind, &case.src);
         let model_in = model_inserts(case.kind, &case.src);
